@@ -21,6 +21,19 @@ pub fn engine(name: &str) -> Option<Engine> {
             real: &["renet::RenetServer", "renet::RenetClient (channels, slicing, acks, packet codec)"],
             stub: &["network between get_packets_to_send and process_packet (simulated packet pools)", "clock (update(dt) driven by the simulator)"],
         }),
+        "B" => Some(Engine {
+            name: "B",
+            make: crate::eng_b::make_world,
+            gen_cfg: crate::eng_b::gen_cfg,
+            names: crate::eng_b::OP_NAMES,
+            real: &["renetcode::NetcodeServer", "renetcode::NetcodeClient", "renetcode packet/token codecs, replay window, AEAD via chacha20poly1305"],
+            stub: &[
+                "datagram network with source addresses (simulated pools, on-path adversary)",
+                "clocks (update(dt) driven by the simulator)",
+                "OS randomness behind generate_random_bytes (seeded stream, hook H5)",
+                "token backend (the harness issues connect tokens with the library's ConnectToken::generate)",
+            ],
+        }),
         _ => None,
     }
 }
@@ -46,8 +59,15 @@ pub fn plans(prop: &str) -> Vec<Plan> {
     match prop {
         "C01" | "C02" | "C03" | "C08" => vec![p("A", "lossy", 12_000, 400_000, 400)],
         "C09" => vec![p("A", "lossy", 10_000, 300_000, 600), p("A", "budget", 3_000, 60_000, 400)],
-        "C13" => vec![p("A", "lossy", 10_000, 300_000, 500)],
-        "C16" => vec![p("A", "lossy", 8_000, 250_000, 400), p("A", "hostile", 4_000, 100_000, 300)],
+        "C13" => vec![p("A", "lossy", 10_000, 300_000, 500), p("B", "session", 3_000, 60_000, 250)],
+        "C16" => vec![p("A", "lossy", 8_000, 250_000, 400), p("A", "hostile", 4_000, 100_000, 300), p("B", "hostile", 3_000, 60_000, 250)],
+        "C04" => vec![p("B", "session", 12_000, 300_000, 300)],
+        "C05" => vec![p("B", "handshake", 12_000, 300_000, 250)],
+        "C07" => vec![p("B", "hostile", 12_000, 300_000, 250)],
+        "C10" => vec![p("B", "handshake", 8_000, 200_000, 300), p("B", "session", 4_000, 100_000, 300)],
+        "C17" => vec![p("B", "handshake", 6_000, 150_000, 250), p("B", "tamper", 300, 6_000, 120)],
+        "C18" => vec![p("B", "liveness", 8_000, 200_000, 300), p("B", "handshake", 4_000, 100_000, 250)],
+        "C19" => vec![p("B", "hostile", 6_000, 150_000, 250), p("B", "handshake", 6_000, 150_000, 250)],
         "C14" | "C15" => vec![p("A", "budget", 10_000, 300_000, 400), p("A", "lossy", 4_000, 100_000, 400)],
         "C06" => vec![p("A", "hostile", 20_000, 600_000, 300)],
         "C11" => vec![p("A", "multi", 10_000, 300_000, 500)],
